@@ -201,6 +201,60 @@ func runC17(c *Ctx) {
 		}
 	}
 
+	// sibling agreement: a line-relocating helper applied to the pending comment in Create is applied in IsEqual too
+	for _, tn := range impls {
+		tq := typeQName(tn.Type())
+		cr, eq := p.methodOn(tq, "Create"), p.methodOn(tq, "IsEqual")
+		if cr == nil || eq == nil {
+			continue
+		}
+		relocators := func(fi *FuncInfo) map[string]bool {
+			out := map[string]bool{}
+			finfo := fi.Pkg.TypesInfo
+			sig := fi.Obj.Type().(*types.Signature)
+			var pend types.Object
+			for i := 0; i < sig.Params().Len(); i++ {
+				if typeQName(sig.Params().At(i).Type()) == "internal/reporter.PendingComment" {
+					pend = sig.Params().At(i)
+				}
+			}
+			ast.Inspect(fi.Decl.Body, func(n ast.Node) bool {
+				call, ok := n.(*ast.CallExpr)
+				if !ok {
+					return true
+				}
+				fn := Callee(finfo, call)
+				if fn == nil || p.FuncOf(fn) == nil {
+					return true
+				}
+				takes := false
+				for _, a := range call.Args {
+					if pend != nil && objOf(finfo, a) == pend {
+						takes = true
+					}
+				}
+				res := fn.Type().(*types.Signature).Results()
+				returnsInt := false
+				for i := 0; i < res.Len(); i++ {
+					if b, ok := res.At(i).Type().Underlying().(*types.Basic); ok && b.Kind() == types.Int {
+						returnsInt = true
+					}
+				}
+				if takes && returnsInt {
+					out[funcQName(fn)] = true
+				}
+				return true
+			})
+			return out
+		}
+		inCreate, inEq := relocators(cr), relocators(eq)
+		for _, fn := range sortedKeys(inCreate) {
+			c.Check(inEq[fn], "C17-R3", tq+":IsEqual applies "+fn+" like Create", eq.Decl.Pos(), "same line relocation on both sides",
+				"Create posts the comment at the line computed by "+fn+" but IsEqual compares the raw pending line: a relocated comment is never recognised and is created again on every run")
+		}
+		c.Ok("C17-R3", tq+":Create/IsEqual relocation helpers compared", cr.Decl.Pos(), itoa(len(inCreate))+" helper(s) in Create")
+	}
+
 	// ---- R4 ----
 	sums := find("Summary")
 	c.Check(len(sums) == 1, "C17-R4", "updateDestination:one Summary call", ud.Decl.Pos(), "one", itoa(len(sums))+" Summary calls")
